@@ -28,7 +28,8 @@ Tok == Lit \cup {Sl, P}
 \* "x" never occurs in a template: a fresh parameter value
 PChar == Lit \cup {Sl, "x"}
 
-Rank(t) == CASE t = Sl -> 1 [] t = "a" -> 2 [] t = "b" -> 3 [] t = "x" -> 4 [] t = P -> 5
+\* "Z", "Y", "W", "X" stand for the bytes A8, A9, AA, C3 of multi-byte characters (static text only)
+Rank(t) == CASE t = Sl -> 1 [] t = "a" -> 2 [] t = "b" -> 3 [] t = "x" -> 4 [] t = P -> 5 [] t = "Z" -> 6 [] t = "Y" -> 7 [] t = "W" -> 8 [] t = "X" -> 9
 Drop(s, k) == SubSeq(s, k + 1, Len(s))
 
 RECURSIVE SeqsUpTo(_, _)
